@@ -94,7 +94,7 @@ func c16Resolve(c *Ctx, px string) *c16Fns {
 			continue
 		}
 		t := vb.Of(e.Results[0], e.Instr)
-		_, ok := ana.Match("bin<==>(call<*>(concat(call<*>(p0), p1)), 1)", t)
+		_, ok := ana.Match("bin<==>(call<*>(concat(alt(call<*>(p0), call<*>(p0, _)), p1)), 1)", t)
 		// the same with a polymod that takes the running state and is fed the parts one after the other (a left fold,
 		// C16.polymod-linear.*): polymod(polymod(1, expand(hrp)), data)
 		_, okS := ana.Match("bin<==>(call<*>(call<*>(1, call<*>(p0)), p1), 1)", t)
@@ -153,6 +153,16 @@ func runC16(c *Ctx) {
 type stepMap struct {
 	chkCol [30]uint32 // image of chk bit i
 	vCol   [8]uint32  // image of v bit j
+}
+
+// expandArgs: the HRP expansion is handed the prefix; an extra integer parameter is a capacity hint (decided by its
+// use: engine B runs the routine with 0 and the result must not depend on it — C16.expand.* compares the output).
+func expandArgs(c *Ctx, fn *ssa.Function, s bitdom.Val) []bitdom.Val {
+	args := []bitdom.Val{s}
+	for i := 1; i < len(fn.Params); i++ {
+		args = append(args, bitdom.ConstBV(0, c.wordBits(), true))
+	}
+	return args
 }
 
 // polymodArgs: the arguments that make the polymod routine run over vals from the initial state — vals alone, or
@@ -370,7 +380,7 @@ func c16Expand(c *Ctx, fn *ssa.Function) {
 	for n := 0; n <= 83; n++ {
 		in := bitdom.New(c.P.SSA, c.wordBits())
 		s := in.SymSlice("hrp", n, 8, 8, true)
-		ex, err := in.Call(fn, []bitdom.Val{s})
+		ex, err := in.Call(fn, expandArgs(c, fn, s))
 		if err != nil || ex.Panic {
 			bad++
 			if first == "" {
@@ -467,7 +477,7 @@ func c16Create(c *Ctx, fns *c16Fns) {
 	}
 	// expected: polymod(expand ‖ data ‖ 0^6) ^ 1, digit i = bits 5(5-i)..5(5-i)+4
 	in2 := in
-	ex2, err := in2.Call(fns.expand, []bitdom.Val{hrp})
+	ex2, err := in2.Call(fns.expand, expandArgs(c, fns.expand, hrp))
 	if err != nil {
 		r.Undec("C16.verify-gate.create-term", "", "expand: %v", err)
 		return
